@@ -16,8 +16,8 @@ CONFIG = dict(
          "Unauthenticate} x {STARTTLS configured} x every reachable (state, TLS active) x 41 command kinds (every name of the "
          "readCommand switch, UID forms separately, unknown, UID unknown, 3 extra AUTHENTICATE shapes) x {malformed, ok, "
          "principal session method fails, auxiliary method fails, Poll fails}; each distinct server input once (outcomes that arm "
-         "no failure coincide with ok: Props/C05 step_same_input); two further capability sets with succeeding backends. Each row "
-         "is a fresh connection driven into the state by the shortest history. Plus random histories of length <= 30 (quick 500, "
+         "no failure coincide with ok: Props/C05 step_same_input); two further capability sets with succeeding backends for the ten kinds that show or change the capability list. Each row "
+         "is a fresh connection driven into the state by the shortest history. Plus random histories of length <= 30 (quick 300, "
          "thorough 100000). Non-trivial = row or history with at least one command; distinct = different case line",
     nontrivial=_c05_nontrivial,
     exhaustive=True,
